@@ -560,3 +560,42 @@ Definition fee_gross (rate amount : Z) : option Z :=
   let? om := dsub P rate in
   let? q := dquo (dec_of_int amount) om in
   chk_int (dtrunc_int q).
+
+(* ------------------------------------------------------------------ liquidity from one amount *)
+(* x/liquiditypool/types/math.go LiquidityBase / LiquidityQuote, bit-exact over Base/Dec.v, with
+   the two kinds of run-time panic kept apart: LegacyDec.Quo by a zero decimal ("division by
+   zero") and a result outside the decimal range ("Int overflow").  Query/CalculationCreatePosition
+   calls them with the pool's *current* sqrt price and the sqrt price of a requested tick: the two
+   are equal whenever the price sits exactly on that tick, so the zero-width input is reachable
+   from a request.  [guard] = the source has the [if diff.IsZero() { return 0 }] early return. *)
+Inductive dres := DOk (z : Z) | DDivZero | DOverflow.
+
+Definition order2 (a b : Z) : Z * Z := if b <? a then (b, a) else (a, b).   (* if A.GT(B) { swap } *)
+
+Definition liq_base (guard : bool) (amount sa0 sb0 : Z) : dres :=
+  let '(sa, sb) := order2 sa0 sb0 in
+  match dmul sa sb with
+  | None => DOverflow
+  | Some product =>
+    match dsub sb sa with
+    | None => DOverflow
+    | Some diff =>
+      if guard && (diff =? 0) then DOk 0 else
+      match dmul (dec_of_int amount) product with
+      | None => DOverflow
+      | Some m =>
+          if diff =? 0 then DDivZero else
+          match dquo m diff with Some q => DOk q | None => DOverflow end
+      end
+    end
+  end.
+
+Definition liq_quote (guard : bool) (amount sa0 sb0 : Z) : dres :=
+  let '(sa, sb) := order2 sa0 sb0 in
+  match dsub sb sa with
+  | None => DOverflow
+  | Some diff =>
+    if guard && (diff =? 0) then DOk 0 else
+    if diff =? 0 then DDivZero else
+    match dquo (dec_of_int amount) diff with Some q => DOk q | None => DOverflow end
+  end.
